@@ -334,6 +334,51 @@ Check C17_there_and_back_float_lin_recip : forall ua ub ka kb la lb v,
     Rv r4 = Rv v * ((1 + d1) * (1 + d2) * (1 + d3) * (1 + d4)) /\
     Rabs (Rv r4 - Rv v) <= ((1 + u53') * (1 + u53') * (1 + u53') * (1 + u53') - 1) * Rabs (Rv v))%R.
 Print Assumptions C17_there_and_back_float_lin_recip.
+(* COMPOSITION in binary64, linear / reciprocal kinds: converting A -> B -> C and converting A -> C directly start
+   with the same rounded step (A to its base); the direct route then rounds once, the route via B three times, and
+   over the reals the two middle steps cancel: via = direct * (1+d1)(1+d2)(1+d3)(1+d4), |di| <= u/(1-u). *)
+Theorem C17_composition_float_lin_recip : forall ua ub uc ka kb kc la lb lc v,
+  kind_coef ua = Some (ka, la) -> kind_coef ub = Some (kb, lb) -> kind_coef uc = Some (kc, lc) ->
+  let ca := num_of_bits (l_bits la) in
+  let cb := num_of_bits (l_bits lb) in
+  let cc := num_of_bits (l_bits lc) in
+  fin v -> fin ca -> fin cb -> fin cc ->
+  let r1 := convert_to_base fl ua v in
+  let direct := through_base fl v ua uc in
+  let r2 := through_base fl v ua ub in
+  let r3 := convert_to_base fl ub r2 in
+  let via := through_base fl r2 ub uc in
+  in_range (step_R ka true (Rv ca) (Rv v)) ->
+  in_range (step_R kc false (Rv cc) (Rv r1)) ->
+  in_range (step_R kb false (Rv cb) (Rv r1)) ->
+  in_range (step_R kb true (Rv cb) (Rv r2)) ->
+  in_range (step_R kc false (Rv cc) (Rv r3)) ->
+  exists d1 d2 d3 d4,
+    (Rabs d1 <= u53' /\ Rabs d2 <= u53' /\ Rabs d3 <= u53' /\ Rabs d4 <= u53' /\
+    Rv via = Rv direct * ((1 + d1) * (1 + d2) * (1 + d3) * (1 + d4)) /\
+    Rabs (Rv via - Rv direct) <= ((1 + u53') * (1 + u53') * (1 + u53') * (1 + u53') - 1) * Rabs (Rv direct))%R.
+Proof. exact composition_float_lin_recip. Qed.
+Check C17_composition_float_lin_recip : forall ua ub uc ka kb kc la lb lc v,
+  kind_coef ua = Some (ka, la) -> kind_coef ub = Some (kb, lb) -> kind_coef uc = Some (kc, lc) ->
+  let ca := num_of_bits (l_bits la) in
+  let cb := num_of_bits (l_bits lb) in
+  let cc := num_of_bits (l_bits lc) in
+  fin v -> fin ca -> fin cb -> fin cc ->
+  let r1 := convert_to_base fl ua v in
+  let direct := through_base fl v ua uc in
+  let r2 := through_base fl v ua ub in
+  let r3 := convert_to_base fl ub r2 in
+  let via := through_base fl r2 ub uc in
+  in_range (step_R ka true (Rv ca) (Rv v)) ->
+  in_range (step_R kc false (Rv cc) (Rv r1)) ->
+  in_range (step_R kb false (Rv cb) (Rv r1)) ->
+  in_range (step_R kb true (Rv cb) (Rv r2)) ->
+  in_range (step_R kc false (Rv cc) (Rv r3)) ->
+  exists d1 d2 d3 d4,
+    (Rabs d1 <= u53' /\ Rabs d2 <= u53' /\ Rabs d3 <= u53' /\ Rabs d4 <= u53' /\
+    Rv via = Rv direct * ((1 + d1) * (1 + d2) * (1 + d3) * (1 + d4)) /\
+    Rabs (Rv via - Rv direct) <= ((1 + u53') * (1 + u53') * (1 + u53') * (1 + u53') - 1) * Rabs (Rv direct))%R.
+Print Assumptions C17_composition_float_lin_recip.
 (* the reciprocal units of the table as it is (regenerated): the theorem's new scope *)
 Example C17_reciprocal_units_nonempty : reciprocal_units <> [].
 Proof. vm_compute. discriminate. Qed.
